@@ -33,6 +33,7 @@ RULE = (
     "depth >= 1, or environment and argument disagree, or path class other than 'inside'."
 )
 RULE += (" Template texts: for every public callable reachable from the template context (query / queries, rule, pipeline; public attributes, list items, dict values to depth 5; one per class and method) a template that calls it with the path of a Python file (and with no argument; thorough: two paths, source file) in a default-loaded pipeline, as post-processing template and as finalizer template: no process, network or exec-from-that-file event may occur, whatever the call returns or raises.")
+RULE += (" The attempts that pass an opt-in are repeated after the template has rendered another template item of the same pipeline (re-entrant rendering).")
 ASSUMPTIONS = [
     "capabilities are observed through CPython audit events (none of the anchored code uses a C "
     "extension that bypasses them)",
@@ -231,10 +232,17 @@ def check_surface_case(case: dict) -> Outcome:
             # second step on the returned object, e.g. apply a freshly built item to a freshly loaded rule
             yrule = 'title: t\\nlogsource: {category: c}\\ndetection: {sel: {"f|expand": "%x%"}, condition: sel}'
             text = "{{ " + case["expr"] + "(" + args + ")." + case["chain"].replace("RULE", "pipeline.from_dict({}).__class__" if False else "rule.from_yaml('" + yrule + "')") + " }}"
+        if case.get("prelude"):
+            # the template first renders another template item of the same pipeline (re-entrant rendering),
+            # then makes its attempt
+            pre = {"post": "pipeline.postprocessing_items[1].apply(rule, query)", "final": "pipeline.finalizers[1].apply(queries)"}["post" if case["where"] == "post" else "final"]
+            text = "{{ " + pre + " }}" + text
+            out.label("after-nested-render")
         if case["where"] == "post":
-            doc = {"postprocessing": [{"type": "template", "template": text}]}
+            doc = {"postprocessing": [{"type": "template", "template": text}, {"type": "template", "template": "{{ query }}"}]}
         else:
-            doc = {"transformations": [{"type": "set_state", "key": "k", "val": "v"}], "finalizers": [{"type": "template", "template": text}]}
+            doc = {"transformations": [{"type": "set_state", "key": "k", "val": "v"}],
+                   "finalizers": [{"type": "template", "template": text}, {"type": "template", "template": "{{ queries | join(',') }}"}]}
         if case.get("chain"):
             doc["transformations"] = [{"type": "set_state", "key": "k", "val": "v"}]
         _ACTIVE[0] = True
@@ -421,6 +429,7 @@ def run(ctx) -> None:
         for a in ("cmd_kw", "file_kw", "http_kw"):
             for e in ("pipeline.items[0].from_dict",):
                 ctx.do({"kind": "template_expr", "where": "post", "expr": e, "args": a, "chain": "apply(RULE)"})
+                ctx.do({"kind": "template_expr", "where": "post", "expr": e, "args": a, "chain": "apply(RULE)", "prelude": True})
     exprs = surface_expressions()
     ctx.extra["template_surface"] = f"{len(exprs)} public callables reachable from the template context (depth <= 5)"
     i = 0
@@ -436,3 +445,5 @@ def run(ctx) -> None:
                 i += 1
                 if i % ctx.nshards == ctx.shard:
                     ctx.do({"kind": "template_expr", "where": where, "expr": e, "args": a})
+                    if a.endswith("_kw") or a in ("tdict_pos", "tplain"):
+                        ctx.do({"kind": "template_expr", "where": where, "expr": e, "args": a, "prelude": True})
